@@ -39,26 +39,36 @@ Section Apply.
   | AFail
   | AFuel.
 
-  (** [trail]: states entered since input was last consumed (or the flag last changed) *)
-  Fixpoint apply (fuel : nat) (s : nat) (args : list str) (ro : bool) (trail : list nat) : ares :=
+  (** [seen]: the states entered since input was last consumed (or the flag last changed),
+      whether still on the current path or already explored without success. The set is
+      threaded through the backtracking, so each state is explored at most once per
+      configuration. *)
+  Fixpoint apply (fuel : nat) (s : nat) (args : list str) (ro : bool) (seen : list nat)
+    : ares * list nat :=
     match fuel with
-    | 0 => AFuel
+    | 0 => (AFuel, seen)
     | S f =>
       let '(args1, ro1) := strip args ro in
-      let trail1 := if Nat.eqb (length args1) (length args) then trail else [] in
-      if (match args1 with [] => terminal g s | _ => false end) then AOk [] else
-      (fix try (ms : list matchrec) : ares :=
+      let seen1 := s :: (if Nat.eqb (length args1) (length args) then seen else []) in
+      if (match args1 with [] => terminal g s | _ => false end) then (AOk [], seen1) else
+      (fix try (ms : list matchrec) (seen : list nat) : ares * list nat :=
          match ms with
-         | [] => AFail
+         | [] => (AFail, seen)
          | (t, rem, ro', bs) :: ms' =>
-           let stalled := strs_eqb rem args1 && Bool.eqb ro' ro1 in
-           if stalled && (Nat.eqb t s || mem_nat t trail1) then try ms'
-           else match apply f t rem ro' (if stalled then s :: trail1 else []) with
-                | AOk bs' => AOk (bs ++ bs')
-                | AFail => try ms'
-                | AFuel => AFuel
+           if strs_eqb rem args1 && Bool.eqb ro' ro1 then
+             (* no progress: do not re-enter a state already entered with this configuration *)
+             if mem_nat t seen then try ms' seen
+             else match apply f t rem ro' seen with
+                  | (AOk bs', seen') => (AOk (bs ++ bs'), seen')
+                  | (AFail, seen') => try ms' seen'
+                  | (AFuel, seen') => (AFuel, seen')
+                  end
+           else match apply f t rem ro' [] with
+                | (AOk bs', _) => (AOk (bs ++ bs'), seen)
+                | (AFail, _) => try ms' seen
+                | (AFuel, _) => (AFuel, seen)
                 end
-         end) (collect s args1 ro1)
+         end) (collect s args1 ro1) seen1
     end.
 
   (** recursion depth bound: every step either makes progress in (size, flag) or lengthens
@@ -67,5 +77,5 @@ Section Apply.
     (2 * args_size args + 2) * (nstates g + 1) + 1.
 
   Definition fsm_apply (start : nat) (args : list str) : ares :=
-    apply (apply_fuel args) start args false [].
+    fst (apply (apply_fuel args) start args false []).
 End Apply.
